@@ -32,7 +32,8 @@ const rule = "a case is one history: class subs = 1-4 concurrent writers (Put/Pu
 	"with every option combination, PushUpdate of an injected runtime.Registry database) on keys inside and outside the subscribed prefixes against 1-6 subscriptions " +
 	"(prefix x condition x privilege, subscribe/cancel/double-cancel during the history, live or buffered feeds, shared *query.Query objects) on hashmap, bbolt " +
 	"(with and without shadow delete) and injected backends, with idle or PRNG-jittered yield points; class pair = one of five forced interleavings at " +
-	"db.put.prenotify / db.sub.cancel; class shared = two subscriptions created from one query object; class hooks = 1-3 workers Get/Put/Delete against 1-4 hooks " +
+	"db.put.prenotify / db.sub.cancel; class burst = rounds of 2-8 barrier-released concurrent Subscribe calls and 2-8 concurrent Cancels of different subscriptions " +
+	"(parked at db.sub.cancel, released together) on one database with writes in between; class shared = two subscriptions created from one query object; class hooks = 1-3 workers Get/Put/Delete against 1-4 hooks " +
 	"(phase set x query x veto x replacement, register/cancel during the history). distinct = structural signature of the scenario (plus the observed " +
 	"interleaving signature for pair); non-trivial = at least one delivery or hook call was both demanded and observed"
 
@@ -49,6 +50,7 @@ func scenarioList(cfg vlib.Cfg) []Scenario {
 	add(cfg.N(400, 4000), "subs", genSubs)
 	add(cfg.N(300, 3000), "pair", genPair)
 	add(cfg.N(32, 200), "shared", genShared)
+	add(cfg.N(120, 1200), "burst", genBurst)
 	add(cfg.N(200, 2400), "hooks", genHooks)
 	return out
 }
@@ -61,6 +63,8 @@ func batchSize(class string) int {
 		return 28
 	case "shared":
 		return 12
+	case "burst":
+		return 10
 	}
 	return 7
 }
@@ -186,6 +190,9 @@ func main() {
 		floor("mandatory_deliveries", 8000, 80000)
 		floor("cancels_overlapping_writer", 100, 800)
 		floor("pair_plans_completed", 150, 1000)
+		floor("hook_park_rounds", 50, 500)
+		floor("burst_concurrent_cancel_rounds", 300, 3000)
+		floor("burst_concurrent_subscribe_rounds", 200, 2000)
 		floor("hook_calls_mandatory", 2000, 20000)
 		floor("vetoed_ops", 50, 500)
 		floor("replacements_postget", 10, 100)
@@ -303,9 +310,29 @@ func runScenario(b *vlib.Batch, sc *Scenario) {
 			b.Seen("interleavings", w.parks.signature())
 		}
 		finishSubCase(b, r, nv)
+	case "burst":
+		r := runBurst(w, sc)
+		r.judge(b)
+		if len(r.inconcl) == 0 {
+			b.Count("burst_scenarios_completed", 1)
+			for _, rd := range sc.Burst.Rounds {
+				b.Count("burst_rounds", 1)
+				if len(rd.Cancel) >= 2 {
+					b.Count("burst_concurrent_cancel_rounds", 1)
+					b.Max("burst_max_concurrent_cancels", int64(len(rd.Cancel)))
+				}
+				if len(rd.Subscribe) >= 2 {
+					b.Count("burst_concurrent_subscribe_rounds", 1)
+					b.Max("burst_max_concurrent_subscribes", int64(len(rd.Subscribe)))
+				}
+			}
+		}
+		finishSubCase(b, r, nv)
 	case "hooks":
 		hr := runHooks(w, sc)
 		hr.judge(b)
+		b.Count("hook_park_rounds", int64(hr.parkRounds))
+		b.Count("hook_cancel_completed_while_operation_parked", int64(hr.cancelWhileParked))
 		if len(hr.calls) > 0 {
 			b.DistinctS(hr.structSig())
 		}
